@@ -67,7 +67,7 @@ Print Assumptions C01_nothing_after_shutdown.
 (* non-vacuity: a concrete execution (two watchers, a full batch, a singleton, a partial
    batch, one rejected call) reaches a state in which all of the above talk about something *)
 Definition ex_cfg : cfg :=
-  mkCfg V2 10 false false 0 0 0 0 0 0 [mkW 2 0 0; mkW 0 0 0] 0 0 0.
+  mkCfg V2 10 false false 0 0 0 0 0 0 [mkW 2 0 0; mkW 0 0 0] 0 0 0 0.
 Definition ex_enq (w obj : nat) (b : bool) : label :=
   AEnqueue (mkE false (Some w) obj 1 1 b 0 false).
 Definition ex_trace : list label :=
